@@ -16,7 +16,16 @@
 //   set <k> <sig> v v ...                         -> ok | error:<kind>
 //   extract <srcsig> <dstsig> v v ...             -> vec ... | error:<kind>
 //   copy <ksrc> <kdst> <sig>                      -> ok | error:<kind>
-// Compound ops (oracle only): minfo, rt, ext, cp, reset, key  (see below).
+// Keyframe primitives (also implemented by the Lean driver; see lean/Drivers/C26.lean):
+//   keyfill <base> <array> ...                    -> ok          (direct write of whole m->key_* arrays)
+//   keyput <idx> <array> v v ...                  -> ok          (direct write of one keyframe's row)
+//   keydump <array> ...                           -> name:v v v|name:...
+//   setkey <k> <idx>                              -> ok | error:keyRange | error:keyNeg   (mj_setKeyframe)
+//   loadkey <k> <idx> <base> <field> ... ; <field> ...
+//        mj_resetDataKeyframe(M, D[k], idx); `reset` when D[k] is then indistinguishable from a fresh
+//        mjData, else the first list of fields + `;rest=<0|1>` (1: every byte of D[k] outside those
+//        fields equals the fresh mjData); then D[k] is re-filled like `fill <k> <base> <second list>`
+// Compound ops (oracle only): minfo, rt, ext, cp, reset, key, put, krt  (see below).
 #include <limits.h>
 #include <setjmp.h>
 #include <stddef.h>
@@ -63,6 +72,24 @@ static int model_size(const mjModel* m, const char* name, long* out) {
   return 0;
 }
 
+// model key_* arrays, reached by name through MJMODEL_POINTERS (rows = nr, row = nc entries each)
+typedef struct { mjtNum* p; long rows; long row; } karr;
+static int find_karray(mjModel* m, const char* name, karr* out) {
+  if (strncmp(name, "key_", 4)) return 0;
+  MJMODEL_POINTERS_PREAMBLE(m)
+#define X(type, nm, nr, nc)                                                          \
+  if (!strcmp(name, #nm)) {                                                          \
+    if (strcmp(#type, "mjtNum")) return 0;                                           \
+    out->p = (mjtNum*)m->nm; out->rows = (long)m->nr; out->row = (long)(nc);         \
+    return 1;                                                                        \
+  }
+#define XNV X
+  MJMODEL_POINTERS
+#undef XNV
+#undef X
+  return 0;
+}
+
 static void pnum(double v) {
   if (v == (double)(long long)v && v > -1e15 && v < 1e15) printf("%lld", (long long)v);
   else printf("%.17g", v);
@@ -98,6 +125,8 @@ static const char* errkind(void) {
   if (strstr(errmsg, "< 0")) return "sigNeg";
   if (strstr(errmsg, ">= 2^mjNSTATE")) return "sigRange";
   if (strstr(errmsg, "not a subset")) return "notSubset";
+  if (strstr(errmsg, "mj_setKeyframe") && strstr(errmsg, "must be smaller")) return "keyRange";
+  if (strstr(errmsg, "mj_setKeyframe") && strstr(errmsg, "negative")) return "keyNeg";
   const char* p = strstr(errmsg, "invalid state element ");
   if (p) {
     unsigned long e = strtoul(p + strlen("invalid state element "), NULL, 10);
@@ -257,6 +286,12 @@ static int call_copy(const mjData* src, mjData* dst, int sig) {
   mj_copyState(M, src, dst, sig); cur = &jb_main; return 1;
 }
 
+static int call_setkey(const mjData* d, int idx) {
+  cur = &jb_call;
+  if (setjmp(jb_call)) { cur = &jb_main; return 0; }
+  mj_setKeyframe(M, d, idx); cur = &jb_main; return 1;
+}
+
 // snapshot of everything in mjData outside the arena: header (up to `buffer`) + main buffer
 typedef struct { unsigned char* hdr; unsigned char* buf; size_t nb; } snap;
 static snap take_snap(const mjData* d) {
@@ -267,7 +302,7 @@ static snap take_snap(const mjData* d) {
 }
 static void free_snap(snap* s) { free(s->hdr); free(s->buf); }
 // 1 iff every byte of header+buffer outside the listed fields is unchanged since the snapshot
-static int rest_equal(const snap* s, mjData* d, char** names, int nn) {
+static int rest_equal_masked(const snap* s, mjData* d, char** names, int nn, const unsigned char* hdr_only) {
   size_t nh = offsetof(mjData, buffer);
   unsigned char* mh = calloc(nh, 1); unsigned char* mb = calloc(s->nb ? s->nb : 1, 1);
   for (int i = 0; i < nn; i++) {
@@ -278,9 +313,30 @@ static int rest_equal(const snap* s, mjData* d, char** names, int nn) {
     else if (p >= (unsigned char*)d->buffer && p + bytes <= (unsigned char*)d->buffer + s->nb) memset(mb + (p - (unsigned char*)d->buffer), 1, bytes);
   }
   int ok = 1;
-  for (size_t i = 0; i < nh && ok; i++) if (!mh[i] && s->hdr[i] != ((unsigned char*)d)[i]) ok = 0;
+  for (size_t i = 0; i < nh && ok; i++) if (!mh[i] && (!hdr_only || hdr_only[i]) && s->hdr[i] != ((unsigned char*)d)[i]) ok = 0;
   for (size_t i = 0; i < s->nb && ok; i++) if (!mb[i] && s->buf[i] != ((unsigned char*)d->buffer)[i]) ok = 0;
   free(mh); free(mb);
+  return ok;
+}
+
+static int rest_equal(const snap* s, mjData* d, char** names, int nn) { return rest_equal_masked(s, d, names, nn, NULL); }
+
+// 1 iff the header members (MJDATA_SCALAR and MJDATA_VECTOR of mjxmacro.h: sizes, counters, statistics,
+// flags, time, energy; struct padding is not compared - two separately allocated mjData differ there)
+// and the main buffer of d are byte-identical to those of a fresh mjData, outside the listed fields
+static int equals_fresh(mjData* d, char** names, int nn) {
+  mjData* fr = mj_makeData(M);
+  snap s = take_snap(fr);
+  size_t nh = offsetof(mjData, buffer);
+  unsigned char* only = calloc(nh, 1);
+#define X(type, nm) { size_t o = offsetof(mjData, nm); if (o + sizeof(d->nm) <= nh) memset(only + o, 1, sizeof(d->nm)); }
+  MJDATA_SCALAR
+#undef X
+#define X(type, nm, n1, n2) { size_t o = offsetof(mjData, nm); if (o + sizeof(d->nm) <= nh) memset(only + o, 1, sizeof(d->nm)); }
+  MJDATA_VECTOR
+#undef X
+  int ok = (d->nbuffer == fr->nbuffer) && rest_equal_masked(&s, d, names, nn, only);
+  free(only); free_snap(&s); mj_deleteData(fr);
   return ok;
 }
 
@@ -347,6 +403,20 @@ int main(void) {
       for (int i = 1; i < semi; i++) {
         long v = -1; if (!model_size(m, t[i], &v)) v = -1;
         printf(i > 1 ? " %s=%ld" : "%s=%ld", t[i], v);
+      }
+      printf("\n");
+      mj_deleteModel(m);
+      continue;
+    }
+    if (!strcmp(op, "quats")) {   // first pass: qpos addresses of the quaternions of a spec:  quats ; <spec tokens>
+      if (nt < 2 || strcmp(t[1], ";")) { printf("bad-op\n"); continue; }
+      char err[1024];
+      mjModel* m = build_model(t + 2, nt - 2, err, sizeof(err));
+      if (!m) { printf("compile-error %s\n", err); continue; }
+      printf("quats");
+      for (int j = 0; j < m->njnt; j++) {
+        if (m->jnt_type[j] == mjJNT_FREE) printf(" %d", m->jnt_qposadr[j] + 3);
+        else if (m->jnt_type[j] == mjJNT_BALL) printf(" %d", m->jnt_qposadr[j]);
       }
       printf("\n");
       mj_deleteModel(m);
@@ -477,6 +547,83 @@ int main(void) {
       }
       printf("\n");
       mj_deleteData(fr);
+    } else if (!strcmp(op, "keyfill") && nt >= 2) {
+      long base; karr a; int ok = parse_long(t[1], &base);
+      for (int i = 2; i < nt && ok; i++) ok = find_karray(M, t[i], &a);
+      if (!ok) { printf("bad-op\n"); continue; }
+      for (int i = 2; i < nt; i++) {
+        find_karray(M, t[i], &a);
+        for (long j = 0; j < a.rows * a.row; j++) a.p[j] = (mjtNum)(base + 1000L * (i - 1) + j);
+      }
+      printf("ok\n");
+    } else if (!strcmp(op, "keyput") && nt >= 3) {
+      long idx; karr a;
+      if (!parse_long(t[1], &idx) || !find_karray(M, t[2], &a) || idx < 0 || idx >= a.rows || nt - 3 != a.row) { printf("bad-op\n"); continue; }
+      double* v = parse_vec(t + 3, nt - 3);
+      if (!v) { printf("bad-op\n"); continue; }
+      for (long j = 0; j < a.row; j++) a.p[idx * a.row + j] = v[j];
+      free(v);
+      printf("ok\n");
+    } else if (!strcmp(op, "keydump")) {
+      karr a; int ok = 1;
+      for (int i = 1; i < nt && ok; i++) ok = find_karray(M, t[i], &a);
+      if (!ok) { printf("bad-op\n"); continue; }
+      for (int i = 1; i < nt; i++) {
+        find_karray(M, t[i], &a);
+        if (i > 1) putchar('|');
+        printf("%s:", t[i]); pvec(a.p, a.rows * a.row);
+      }
+      printf("\n");
+    } else if (!strcmp(op, "setkey") && nt == 3 && slot(t[1], &k) && sigarg(t[2], &sig)) {
+      if (call_setkey(D[k], sig)) printf("ok\n"); else printf("error:%s\n", errkind());
+    } else if (!strcmp(op, "loadkey") && nt >= 5 && slot(t[1], &k) && sigarg(t[2], &sig)) {
+      long base; fld f; int semi = -1;
+      for (int i = 4; i < nt; i++) if (!strcmp(t[i], ";")) { semi = i; break; }
+      int ok = semi > 0 && parse_long(t[3], &base);
+      for (int i = 4; i < nt && ok; i++) if (i != semi) ok = find_field(M, D[k], t[i], &f);
+      if (!ok) { printf("bad-op\n"); continue; }
+      mj_resetDataKeyframe(M, D[k], sig);
+      if (equals_fresh(D[k], NULL, 0)) printf("reset\n");
+      else { dump_fields(D[k], t + 4, semi - 4); printf(";rest=%d\n", equals_fresh(D[k], t + 4, semi - 4)); }
+      for (int i = semi + 1; i < nt; i++) { find_field(M, D[k], t[i], &f); fill_field(&f, base, i - semi - 1); }
+    }
+    // ------------------------------------------------------------ keyframe compound ops (oracle observations)
+    else if (!strcmp(op, "put") && nt >= 3 && slot(t[1], &k)) {
+      // direct write of the leading entries of one mjData field:  put <k> <field> v v ...
+      fld f;
+      if (!find_field(M, D[k], t[2], &f) || nt - 3 > f.n) { printf("bad-op\n"); continue; }
+      double* v = parse_vec(t + 3, nt - 3);
+      if (!v) { printf("bad-op\n"); continue; }
+      for (long j = 0; j < nt - 3; j++) { if (f.isbool) ((mjtBool*)f.p)[j] = v[j] != 0; else ((mjtNum*)f.p)[j] = v[j]; }
+      free(v);
+      printf("ok\n");
+    } else if (!strcmp(op, "krt") && nt >= 5 && slot(t[1], &k) && slot(t[2], &k2) && sigarg(t[3], &sig) && k != k2) {
+      // krt <ksrc> <kdst> <idx> <base> <field> ... ; <array> ...
+      // mj_setKeyframe(M, D[ksrc], idx), then dirty D[kdst] and mj_resetDataKeyframe(M, D[kdst], idx);
+      // prints the source fields, every listed key_* array before / after the set / after the load,
+      // the loaded data and a fresh mjData
+      long base; fld f; karr a; int semi = -1;
+      for (int i = 5; i < nt; i++) if (!strcmp(t[i], ";")) { semi = i; break; }
+      int ok = semi > 0 && parse_long(t[4], &base);
+      for (int i = 5; i < semi && ok; i++) ok = find_field(M, D[k], t[i], &f);
+      for (int i = semi + 1; i < nt && ok; i++) ok = find_karray(M, t[i], &a);
+      if (!ok) { printf("bad-op\n"); continue; }
+      snap sa = take_snap(D[k]);
+      printf("A="); dump_fields(D[k], t + 5, semi - 5);
+      printf(";K0="); for (int i = semi + 1; i < nt; i++) { find_karray(M, t[i], &a); if (i > semi + 1) putchar('|'); printf("%s:", t[i]); pvec(a.p, a.rows * a.row); }
+      if (!call_setkey(D[k], sig)) { printf(";seterr=%s\n", errkind()); free_snap(&sa); continue; }
+      printf(";restA=%d", rest_equal(&sa, D[k], NULL, 0));
+      printf(";K1="); for (int i = semi + 1; i < nt; i++) { find_karray(M, t[i], &a); if (i > semi + 1) putchar('|'); printf("%s:", t[i]); pvec(a.p, a.rows * a.row); }
+      mj_resetData(M, D[k2]); mj_step(M, D[k2]); mj_step(M, D[k2]);
+      for (int i = 5; i < semi; i++) { find_field(M, D[k2], t[i], &f); fill_field(&f, base, i - 5); }
+      mj_resetDataKeyframe(M, D[k2], sig);
+      mjData* fr = mj_makeData(M);
+      printf(";K2="); for (int i = semi + 1; i < nt; i++) { find_karray(M, t[i], &a); if (i > semi + 1) putchar('|'); printf("%s:", t[i]); pvec(a.p, a.rows * a.row); }
+      printf(";R="); dump_fields(D[k2], t + 5, semi - 5);
+      printf(";F="); dump_fields(fr, t + 5, semi - 5);
+      printf(";rows="); for (int i = semi + 1; i < nt; i++) { find_karray(M, t[i], &a); printf(i > semi + 1 ? " %ld" : "%ld", a.row); }
+      printf("\n");
+      mj_deleteData(fr); free_snap(&sa);
     } else {
       printf("bad-op\n");
     }
